@@ -21,6 +21,7 @@ LEVEL_TEXT = (
     "precedence (services before state variables, Python variables before both)"
     "; `del a.b` uses the Python object bound to `a` when there is one and the state variable only when `a` is undefined"
     '; State.get / State.delete follow their documented outcome tables (an attribute whose value is None is still an attribute); container-valued attributes of a snapshot are checked for aliasing (known finding)'
+    '; precedence of dotted names (Python variable, then function/service, then state); a non-Context `context` keyword is an attribute'
 )
 LEVEL_NOTE = "Home Assistant's state machine is trusted; the finite model covers every guard of State.set (None tests, isinstance, truthiness of kwargs)"
 TECHNIQUE = "abstract interpretation of State.set/delete/setattr on an exhaustive finite model with alias-aware dictionaries (decision table), routing via schematic evaluation of recurse_assign"
